@@ -214,6 +214,8 @@ def nnx_trainstate(c):
   out = {'steps': [], 'old_intact': True}
   for i in range(c['steps']):
     g = jax.tree_util.tree_map(lambda x, i=i: x * 0 + (i + 1), p)
+    if c.get('wide_grads'):
+      g = jax.tree_util.tree_map(lambda x, i=i: wide(x, i), p)
     before = (bits(st.params), bits(st.opt_state), int(st.step))
     new = st.apply_gradients(grads=g)
     u, o = txf().update(g, o, p)
